@@ -341,17 +341,28 @@ fn funding_tx(nn: usize) -> bitcoin::Transaction {
 }
 
 /// add a block with the given transactions to the node's tracker (caller = the block source)
-fn add_block_with(w_node: &Arc<Node>, ctr: &std::sync::atomic::AtomicU32, txs: Vec<bitcoin::Transaction>) -> (bitcoin::Block, String) {
+fn add_block_with(
+    w_node: &Arc<Node>,
+    txs: Vec<bitcoin::Transaction>,
+    book: Option<&std::sync::Mutex<Vec<bitcoin::Block>>>,
+) -> (bitcoin::Block, String) {
     use lightning_signer::txoo::proof::TxoProof;
-    let n = ctr.fetch_add(1, std::sync::atomic::Ordering::SeqCst);
     let mut tracker = w_node.get_tracker();
-    let mut all = vec![coinbase(n)];
+    // everything the block source decides (coinbase tag, bookkeeping of added blocks) happens while it
+    // holds the tracker, as one step with the chain update: the harness adds no shared state of its own
+    // whose order could differ from the chain's
+    let h = tracker.height();
+    let mut all = vec![coinbase(h + 1)];
     all.extend(txs);
     let block = make_block(tracker.tip().0, all);
     let tip = tracker.tip().clone();
-    let h = tracker.height();
     let proof = TxoProof::prove_unchecked(&block, &tip.1, h + 1);
     let r = tracker.add_block(block.header, proof);
+    if r.is_ok() {
+        if let Some(b) = book {
+            b.lock().unwrap().push(block.clone());
+        }
+    }
     (block, match r { Ok(()) => "ok".into(), Err(e) => format!("err:{:?}", e) })
 }
 
@@ -596,7 +607,7 @@ fn build_world(sc: &Scenario) -> World {
         tracker.add_block(header, proof).expect("first block");
     }
     let coinbase_ctr = std::sync::atomic::AtomicU32::new(1);
-    let (_, r) = add_block_with(&node_ctx.node, &coinbase_ctr, (1..=sc.nchan).map(funding_tx).collect());
+    let (_, r) = add_block_with(&node_ctx.node, (1..=sc.nchan).map(funding_tx).collect(), None);
     assert_eq!(r, "ok", "funding block");
     // a wallet-to-wallet transaction for check_onchain_tx
     let mut tx_ctx = TestFundingTxContext::new();
@@ -832,20 +843,17 @@ fn do_req(w: &World, r: &Req) -> String {
             None => "nochan".into(),
             Some(cc) => {
                 let spend = mk_tx(vec![cc.setup.funding_outpoint], 5000 + *c as u32);
-                let (block, r) = add_block_with(node, &w.coinbase_ctr, vec![spend]);
-                if r == "ok" {
-                    w.blocks.lock().unwrap().push(block);
-                }
+                let (_, r) = add_block_with(node, vec![spend], Some(&w.blocks));
                 r
             }
         },
         Req::RmBlock => {
             use lightning_signer::txoo::proof::TxoProof;
+            let mut tracker = node.get_tracker();
             let block = w.blocks.lock().unwrap().pop();
             match block {
                 None => "noblock".into(),
                 Some(block) => {
-                    let mut tracker = node.get_tracker();
                     if tracker.headers().is_empty() {
                         return "noprev".into();
                     }
